@@ -134,3 +134,85 @@ pub async fn op_delegate_role(sc: Value) -> Value {
     violations.dedup();
     json!({"violations": violations, "old_keys": old.len(), "supplied_keys": supplied.len(), "distinct_keys": pool.len()})
 }
+
+/// C10 replay of `add_role` counterexamples: a role file written by its holder is added by the owner from a directory URL.
+/// scenario: keys_given (0..2), doc_has_deleg (the role's own delegations carry a key table entry)
+pub async fn op_add_role(sc: Value) -> Value {
+    use tough::{FilesystemTransport, Limits};
+    let keys_given = sc["keys_given"].as_u64().unwrap_or(1) as usize;
+    let doc_has_deleg = sc["doc_has_deleg"].as_bool().unwrap_or(true);
+    let mut violations: Vec<String> = vec![];
+    for name in ["plain", "needs encoding/β x"] {
+        let holder_key = MemKey::new();
+        let own_key = MemKey::new().pair().tuf_key();
+        let own_id = own_key.key_id().unwrap();
+        let mut child = TargetsEditor::new(name);
+        child.version(nz(4)).expires(far());
+        if doc_has_deleg {
+            child.add_key([(own_id.clone(), own_key.clone())].into_iter().collect(), None).unwrap();
+        }
+        let ks: Vec<Box<dyn KeySource>> = vec![Box::new(holder_key.clone())];
+        let signed = child.sign(&ks).await.unwrap();
+        let dir = tempfile::tempdir().unwrap();
+        signed.write(dir.path(), false).await.unwrap();
+        let file = dir.path().join(format!("{}.json", crate::names::ref_encode(name)));
+        let bytes = match std::fs::read(&file) {
+            Ok(b) => b,
+            Err(_) => return json!({"error": format!("the role file of {name:?} was not written as {file:?}")}),
+        };
+        let mut written: Value = serde_json::from_slice(&bytes).unwrap();
+        let bytes = if doc_has_deleg { bytes } else {
+            // a role file without a `delegations` member (add_role does not verify signatures; that happens when the owner signs / a client loads)
+            written["signed"].as_object_mut().unwrap().remove("delegations");
+            let b = serde_json::to_vec_pretty(&written).unwrap();
+            std::fs::write(&file, &b).unwrap();
+            b
+        };
+        let supplied: Vec<Key> = (0..keys_given).map(|_| MemKey::new().pair().tuf_key()).collect();
+        let keys_arg: Option<HashMap<Decoded<Hex>, Key>> = if keys_given > 0 { Some(supplied.iter().map(|k| (k.key_id().unwrap(), k.clone())).collect()) } else { None };
+        let want_keys: Vec<(Decoded<Hex>, Key)> = if keys_given > 0 { supplied.iter().map(|k| (k.key_id().unwrap(), k.clone())).collect() } else if doc_has_deleg { vec![(own_id.clone(), own_key.clone())] } else { vec![] };
+        for (what, limit, expect_ok) in [("limit = file size", bytes.len() as u64, true), ("limit one byte below the file size", bytes.len() as u64 - 1, false)] {
+            let mut ed = TargetsEditor::new("me");
+            ed.version(nz(1)).expires(far());
+            ed.limits(Limits { max_targets_size: limit, max_root_size: 10 * 1024 * 1024, ..Limits::default() });
+            ed.transport(Box::new(FilesystemTransport));
+            let res = ed.add_role(name, dir_url(dir.path()).as_str(), PathSet::Paths(vec![PathPattern::new("x/*").unwrap()]), nz(2), keys_arg.clone()).await.map(|_| ());
+            let must_succeed = expect_ok && (keys_given > 0 || doc_has_deleg);
+            match (&res, must_succeed, expect_ok) {
+                (Err(e), true, _) => { violations.push(format!("add_role({name:?}, {what}) failed: {e}")); continue; }
+                (Ok(()), _, false) => { violations.push(format!("add_role({name:?}) accepted a {}-byte role file with max_targets_size = {limit}", bytes.len())); continue; }
+                (Ok(()), false, true) => { violations.push(format!("add_role({name:?}) succeeded without supplied keys although the role file has no delegations to take keys from")); continue; }
+                (Err(_), false, _) => continue,
+                (Ok(()), true, true) => {}
+            }
+            let built = match ed.build_targets() { Ok(b) => b, Err(e) => { violations.push(format!("build_targets after add_role failed: {e}")); continue; } };
+            let d = built.targets.delegations.unwrap();
+            match d.roles.iter().find(|r| r.name == name) {
+                None => violations.push(format!("after add_role({name:?}) the delegated roles are {:?}", d.roles.iter().map(|r| r.name.clone()).collect::<Vec<_>>())),
+                Some(r) => {
+                    let mut got: Vec<String> = r.keyids.iter().map(|k| hex::encode(k.as_ref())).collect();
+                    let mut want: Vec<String> = want_keys.iter().map(|(k, _)| hex::encode(k.as_ref())).collect();
+                    got.sort(); want.sort();
+                    if got != want || r.threshold != nz(2) || r.terminating {
+                        violations.push(format!("role {name:?} added with {} key id(s) / threshold {} / terminating {}: expected the {} {} key id(s), threshold 2, not terminating", got.len(), r.threshold, r.terminating, want.len(), if keys_given > 0 { "supplied" } else { "document's own" }));
+                    }
+                    if r.paths != PathSet::Paths(vec![PathPattern::new("x/*").unwrap()]) {
+                        violations.push(format!("role {name:?} added with other paths than given"));
+                    }
+                    let now = r.targets.as_ref().map(|t| serde_json::to_value(t).unwrap());
+                    if now.as_ref().map(|v| (&v["signed"], &v["signatures"])) != Some((&written["signed"], &written["signatures"])) {
+                        violations.push(format!("role {name:?}: the delegated metadata is not the document (and signatures) read from the role file"));
+                    }
+                }
+            }
+            for (id, k) in &want_keys {
+                if d.keys.get(id) != Some(k) {
+                    violations.push(format!("after add_role({name:?}) key {} is missing from the delegations key table", &hex::encode(id.as_ref())[..8]));
+                }
+            }
+            if d.roles.len() != 1 { violations.push(format!("after one add_role there are {} delegated roles", d.roles.len())); }
+        }
+    }
+    violations.dedup();
+    json!({"violations": violations})
+}
